@@ -192,6 +192,9 @@ def raw_strategy():
                 S.binary(0, 200),
                 st.binary(min_size=1024, max_size=4096),
                 st.tuples(st.sampled_from([b"MZ", b"\x00\x01\x00\x01\x00\x02", b"GET / HTTP/1.1\r\n", b"HTTP/1.1 200 OK\r\n", b"\x69\x68\x69\x68\x69\x6b", b"\x2e\x2f\x2e\x2f\x2e\x2c", b"\xfc\xe8"]), st.binary(max_size=300)).map(lambda t: t[0] + t[1]),
+                # featureless data holding one dword that looks like an e_lfanew (1..1023) for an earlier offset: the "PE
+                # header" it points to lies inside, at the very end of, or beyond the data (sizes around 1 KiB and 2 KiB)
+                st.tuples(st.integers(60, 1100), st.integers(1, 1023), st.integers(0, 1200), st.sampled_from([0x00, 0x90, 0x41])).map(lambda t: bytes([t[3]]) * t[0] + struct.pack("<I", t[1]) + bytes([t[3]]) * t[2]),
             )
         }
     )
@@ -587,7 +590,34 @@ def http_lines_execute(case, stats):
     stats.note(case, True, classes=["http_start_line"])
 
 
+# ------------------------------------------------------------------------------------------ guard markers at every position
+def guardpos_enumerate(tier, shard, nshards):
+    def gen():
+        pos = list(range(0, 40)) + list(range(6100, 6200)) + list(range(40, 6100, 61 if tier == "quick" else 7)) + [6200, 7000, 8191, 8192, 8193]
+        for p in pos:
+            yield {"pos": p, "opt": p % 4}
+
+    return shard_iter(gen(), shard, nshards)
+
+
+def guardpos_execute(case, stats):
+    """A 12-byte Guardrails boundary look-alike at any offset of an otherwise featureless file (too early for a
+    6144-byte configuration in front of it, exactly at the first possible position, later): every extraction entry
+    point returns 'not found' the documented way."""
+    if "data" in case:
+        run_entries(case["data"], [case["entry"]], stats, what="replay")
+        return
+    starts = [b"\x00\x05\x00\x01\x00\x02", b"\x00\x06\x00\x01\x00\x02", b"\x00\x07\x00\x01\x00\x02", b"\x00\x08\x00\x02\x00\x04"]
+    a6 = bytes((case["pos"] * 7 + i * 13 + 1) & 0xFF for i in range(6))
+    blob = a6 + bytes(x ^ y ^ 0x8A for x, y in zip(a6[::-1], starts[case["opt"]]))
+    for tail in (0, 5, 2100):
+        data = b"\xaa" * case["pos"] + blob + b"\x55" * tail
+        run_entries(data, ["from_bytes", "from_path"], stats, what=f"guard marker look-alike at offset {case['pos']}, {tail} bytes after it")
+    stats.note(case, True, classes=["marker_before_6138" if case["pos"] < 6138 else "marker_at_or_after_6138"])
+
+
 SUBS = [
+    Sub("guard_marker_positions", guardpos_execute, enumerate=guardpos_enumerate, exhaustive=True),
     Sub("http_start_lines", http_lines_execute, enumerate=http_lines_enumerate, exhaustive=True),
     Sub("field_corruption_sweep", corrupt_execute, enumerate=corrupt_enumerate, exhaustive=True),
     Sub("atheris_entry_points", fuzz_execute, custom=fuzz_custom, shards={"quick": 1, "thorough": 8}),
